@@ -13,6 +13,7 @@
 #include <tapkee/exceptions.hpp>
 
 #include <csignal>
+#include <limits>
 #include <ctime>
 #include <cxxabi.h>
 #include <typeinfo>
@@ -72,6 +73,8 @@ struct Sm64
 static DenseMatrix make_data(const std::string& cls, int N, int D, int k, uint64_t seed)
 {
     DenseMatrix X = DenseMatrix::Zero(D, N);
+    if (N <= 0)
+        return X;
     Sm64 r(seed * 7919u + 13u);
     if (cls == "generic" || cls == "dup")
     {
@@ -248,8 +251,13 @@ static std::string run_case(std::map<std::string, std::string>& f)
         p.add(Parameter::create(nullspace_shift.name, (ScalarType)vh::parse_num(f["nullshift"])));
     if (f.count("klleshift"))
         p.add(Parameter::create(klle_shift.name, (ScalarType)vh::parse_num(f["klleshift"])));
-    if (f.count("wrongtype"))   // a keyword carrying a value of the wrong C++ type (C14 territory; one probe here)
+    if (f.count("wrongtype"))   // a keyword carrying a value of the wrong C++ type
         p.add(Parameter::create(gaussian_kernel_width.name, (IndexType)1));
+    if (f.count("dupkw"))       // a keyword given twice
+    {
+        p.add(Parameter::create(max_iteration.name, (IndexType)7));
+        p.add(Parameter::create(max_iteration.name, (IndexType)7));
+    }
 
     const DenseMatrix X0 = X;
     std::ostringstream out;
@@ -258,12 +266,31 @@ static std::string run_case(std::map<std::string, std::string>& f)
         TapkeeOutput o;
         if (f.count("api") && f["api"] == "embed")
         {
-            std::vector<IndexType> idx(N);
+            // idx=identity (default): samples are 0..N-1.  idx=perm: a permutation of 0..N-1.  idx=sparse: sample i is
+            // the VALUE 3 + 2*perm[i]; the callbacks' matrix has 3 + 2N columns and every column that is not a sample is
+            // NaN, so code that uses a position where the sample value is meant (or the reverse) reads NaN / indexes a
+            // container of N entries with a value up to 2N+2
+            const std::string mode = f.count("idx") ? f["idx"] : "identity";
+            std::vector<IndexType> perm(N);
             for (int i = 0; i < N; i++)
-                idx[i] = i;
-            eigen_kernel_callback kcb(X);
-            eigen_distance_callback dcb(X);
-            eigen_features_callback fcb(X);
+                perm[i] = i;
+            if (mode != "identity")
+            {
+                Sm64 pr(seed * 104729u + 7u);
+                for (int i = N - 1; i > 0; i--)
+                    std::swap(perm[i], perm[pr.below(i + 1)]);
+            }
+            const int M = (mode == "sparse") ? 3 + 2 * N : N;
+            std::vector<IndexType> idx(N);
+            DenseMatrix Xbig = DenseMatrix::Constant(D, M, std::numeric_limits<double>::quiet_NaN());
+            for (int i = 0; i < N; i++)
+            {
+                idx[i] = (mode == "sparse") ? 3 + 2 * perm[i] : perm[i];
+                Xbig.col(idx[i]) = X.col(i);
+            }
+            eigen_kernel_callback kcb(Xbig);
+            eigen_distance_callback dcb(Xbig);
+            eigen_features_callback fcb(Xbig);
             o = tapkee::embed(idx.begin(), idx.end(), kcb, dcb, fcb, p);
         }
         else
